@@ -1,16 +1,16 @@
 SPECIFICATION Spec
 CONSTANTS
-  Conns = {1, 2}
-  Kinds = {"server", "out", "in"}
+  Conns = {1}
+  Kinds = {"out", "server"}
   Obfs = {FALSE}
-  SlowListener = FALSE
+  SlowListener = TRUE
   GuardAcceptFinish = TRUE
   CloseOnCancel = TRUE
   AbortConnectOnClose = TRUE
   ConnectingReportGuarded = TRUE
-  ClosingReportGuarded = TRUE
-  MaxLives = 1
-  MaxCalls = 1
+  ClosingReportGuarded = FALSE
+  MaxLives = 2
+  MaxCalls = 2
   MaxMsgs = 1
 INVARIANT TypeOK
 INVARIANT Monotone
